@@ -46,6 +46,23 @@ func (fx *FnExec) calleeContract(cc *ssa.CallCommon) (*Contract, string) {
 		if c := fx.e.contracts[k]; c != nil {
 			return c, k
 		}
+		// the parameter may have been renamed since the contract was written
+		if fx.con != nil && fx.con.Obj != nil {
+			if bs := baseSigFor(fx.key, fx.con.Obj); bs != nil {
+				for i, p := range fx.fn.Params {
+					off := 1
+					if fx.fn.Signature.Recv() != nil {
+						off = 0
+					}
+					if p == prm && i+off < len(bs) {
+						k2 := "funcparam:" + fx.key + "." + bs[i+off]
+						if c := fx.e.contracts[k2]; c != nil {
+							return c, k2
+						}
+					}
+				}
+			}
+		}
 	}
 	// a function stored in a struct field: contract `funcfield T.f`
 	if u, ok := cc.Value.(*ssa.UnOp); ok {
@@ -132,22 +149,18 @@ func (fx *FnExec) calleeEnv(con *Contract, recv *Val, args []Val, heap, old *Hea
 				env.names[n] = args[i]
 			}
 		}
-		// names the parameters had on the baselined tree (pure renames only, see names.go)
-		if !con.IsIface && len(con.Params) == 0 {
-			if _, bp := renamesFor(con.Key, fx.e.funcsByKey[con.Key]); bp != nil {
-				off := 0
-				if sig.Recv() != nil {
-					off = 1
-					if recv != nil && len(bp) > 0 && bp[0] != "" {
-						if _, clash := env.names[bp[0]]; !clash {
-							env.names[bp[0]] = *recv
-						}
+		// names the parameters had on the baselined tree (renames only, see names.go)
+		if len(con.Params) == 0 {
+			if bs := baseSigFor(con.Key, con.Obj); bs != nil {
+				if recv != nil && bs[0] != "" && bs[0] != "_" && !con.IsIface {
+					if _, clash := env.names[bs[0]]; !clash {
+						env.names[bs[0]] = *recv
 					}
 				}
 				for i := range args {
-					if off+i < len(bp) && bp[off+i] != "" && bp[off+i] != "_" {
-						if _, clash := env.names[bp[off+i]]; !clash {
-							env.names[bp[off+i]] = args[i]
+					if 1+i < len(bs) && bs[1+i] != "" && bs[1+i] != "_" {
+						if _, clash := env.names[bs[1+i]]; !clash {
+							env.names[bs[1+i]] = args[i]
 						}
 					}
 				}
@@ -1208,6 +1221,16 @@ func (fx *FnExec) invokedClosureMods(env0 *Env, pn string) {
 	for i, fv := range av.Fn.Fn.FreeVars {
 		if i < len(av.Fn.Bindings) {
 			cenv.names[fv.Name()] = av.Fn.Bindings[i]
+		}
+	}
+	if ren, _ := renamesFor(ck, av.Fn.Fn); ren != nil {
+		// the closure's contract may use the names its captured variables had on the baselined tree
+		for old, cur := range ren {
+			if v, ok := cenv.names[cur]; ok {
+				if _, clash := cenv.names[old]; !clash {
+					cenv.names[old] = v
+				}
+			}
 		}
 	}
 	for _, m := range ccon.Mod {
